@@ -1,4 +1,4 @@
-import BqVerif.Proofs.ServerBubble
+import BqVerif.Proofs.ServerObs
 /-!
 # C13 — task failures reach their client; no client request takes the server down
 
@@ -209,6 +209,56 @@ theorem C13_client_predrain (logs : List Nat) :
     simp [sendRecv, this]
   · simp [sendRecv, preDrain_logs, preDrain]
 
+/-! ## what is really written, and the remaining defects (witnesses; KNOWN-FINDINGs) -/
+
+/-- the messages the outgoing thread really writes are the automaton's replies, except those put
+for a connection the same handler closes; for every request that does not close the requester
+(everything but `disconnect` and a `request` for a non-open id) they are exactly the replies -/
+theorem C13_written_replies {s s' : Srv} {a : Abs} {e : Ev} (h : Inv s) (r : R s a)
+    (hw : wf s e = true) (hs : step s e = .ok s') :
+    writtenReplies s'.out = keepWritten (spec a (absEv s e)).2 ∧
+    (closesConn a (absEv s e) = false → writtenReplies s'.out = (spec a (absEv s e)).2) := by
+  have := (sim_step h r e hw hs).2
+  refine ⟨by simp [writtenReplies, this], fun hc => ?_⟩
+  simp only [writtenReplies, this]
+  exact keepWritten_noClose (spec_noClose a _ hc)
+
+/-
+Full strength (every reply the automaton requires is written) is FALSE for one request kind:
+
+theorem C13_every_reply_written … : writtenReplies s'.out = (spec a (absEv s e)).2
+-/
+
+/-- witness (finding `bad-request-reply-never-written`): the answer ERROR 'Unknown task.' to a
+`request` for a non-open id is put and then the connection is closed by the same handler, so it
+is never written - the client only sees its connection die -/
+theorem C13_bad_request_reply_dropped_witness (a : Abs) (c : Conn) (t : Tid)
+    (h : (a.task t).openFor c = false) :
+    (spec a (.request c t)).2 = [.errorTo c 0, .close c] ∧
+    keepWritten (spec a (.request c t)).2 = [.close c] := by
+  rw [spec_request_notOpen h]
+  simp [keepWritten, Reply.isClose, Reply.conn]
+
+/-- witness (finding `client-error-text-only-in-cause`): for an ERROR reply the caller of
+`status/result/cancel` gets the wrapped exception - its own text is the fixed string
+'Server connection unexpectedly closed.', the original text is only the `__cause__` -/
+theorem C13_client_error_text_witness (msg : Nat) (logs : List Nat) (rest : List CMsg) :
+    sendRecv [] (logs.map CMsg.log ++ CMsg.error msg :: rest) = .wrapped (some msg) := by
+  simp [sendRecv, preDrain, recvHandle_logs, recvHandle]
+
+/-- witness (finding `outgoing-thread-dies:BrokenPipeError`): the exception a send to a vanished
+peer normally raises is not among those `send_outgoing` survives -/
+theorem C13_outgoing_brokenpipe_witness :
+    outgoingSurvives .brokenPipe = false ∧ outgoingSurvives .connectionReset = true := ⟨rfl, rfl⟩
+
+/-- witness (finding `double-disconnect`): `handle_disconnect` for a connection that was already
+removed (the outgoing thread does that on ConnectionResetError, the main thread on the EOF of the
+same connection) is a failing lookup: the run loop shuts the server down -/
+theorem C13_double_disconnect_witness :
+    histFails [.connect 0, .disconnect 0] = false ∧
+    histFails [.connect 0, .disconnect 0, .disconnect 0] = true := by
+  decide
+
 /-! ## non-vacuity -/
 
 /-- a reachable two-client state with a running task of client 1 -/
@@ -248,5 +298,10 @@ example : Reach demo ∧ get? demo.boxes 0 = some ⟨none, false⟩ ∧
     Desc (rootTask 0) (spawn (spawn (rootTask 0) 3 0 0) 4 1 2) ∧
     (false = false ∨ ([] : List Addr).any (spawn (spawn (rootTask 0) 3 0 0) 4 1 2).isDescendantOf = false) :=
   ⟨demo_reach, rfl, .spawn _ _ _ (.spawn _ _ _ .root), Or.inl rfl⟩
+
+-- C13_written_replies: same hypotheses as C13_refines_task_automaton; a non-closing request
+example : closesConn absInit (.status 0 7) = false := rfl
+-- C13_bad_request_reply_dropped_witness: an unknown id is not open
+example : (absInit.task 5).openFor 0 = false := rfl
 
 end BqVerif.C13
